@@ -273,6 +273,19 @@ func runStressChild(cfgPath, outPath string) {
 			setup.add(event{K: "ce", Out: "ok"})
 			cover = append(cover, &sharedExpr{call: cp.Call, expr: e, opaque: true})
 		}
+		// the operator / navigation programs of opaquePool as well, as separate expressions (program 600+j)
+		// that are first evaluated concurrently and with fresh %x
+		for j, text := range opaquePool {
+			call := ccall{API: "fhirpath", Opts: []copt{}, Prog: []node{{N: "opaque", K: 600 + j + 1}}, Eid: 1600 + j + 1, Text: text, Style: "emit"}
+			e, err := fhirpath.Compile(text, scaffold(nil, 0)...)
+			if err != nil {
+				skipped = append(skipped, text)
+				continue
+			}
+			setup.add(event{K: "cb", Call: call})
+			setup.add(event{K: "ce", Out: "ok"})
+			cover = append(cover, &sharedExpr{call: call, expr: e, opaque: true})
+		}
 	}
 	doEval := func(l *glog, s *sharedExpr, e *fhirpath.Expression, eid, r int, eo []eopt) {
 		call := map[string]any{"eid": eid, "r": r, "opts": eo}
